@@ -367,7 +367,68 @@ end Jwt.Generated
     return "JwkTables.lean", text, {"key_ops": chain, "kty": ktys, "use": uses}
 
 
-GENERATORS = [gen_base64, gen_alg, gen_common, gen_jwk]
+def gen_ops(repo, build):
+    hdr = cpp(repo, build, "include/jwt.h")
+    prov = dict(enum_values(hdr, "jwt_crypto_provider_t"))
+    src = cpp(repo, build, "libjwt/jwt-crypto-ops.c")
+    m = re.search(r"jwt_ops_available\s*\[\s*\]\s*=\s*\{(.*?)\}\s*;", src, re.S)
+    if not m:
+        raise ExtractError("jwt_ops_available not found")
+    entries = [e.strip() for e in m.group(1).split(",") if e.strip()]
+    if not entries or not re.fullmatch(r"\(\(void\s*\*\)\s*0\)|NULL|0", entries[-1]):
+        raise ExtractError("jwt_ops_available does not end in NULL: %r" % entries[-1:])
+    names = [e.lstrip("&").strip() for e in entries[:-1]]
+    # the initial value of jwt_ops
+    m0 = re.search(r"struct\s+jwt_crypto_ops\s*\*\s*jwt_ops\s*=\s*&\s*(\w+)\s*;", src)
+    if not m0:
+        raise ExtractError("initial jwt_ops not found")
+    tables = []
+    files = {"jwt_openssl_ops": "libjwt/openssl/sign-verify.c", "jwt_gnutls_ops": "libjwt/gnutls/sign-verify.c",
+             "jwt_mbedtls_ops": "libjwt/mbedtls/sign-verify.c"}
+    for n in names:
+        if n not in files:
+            raise ExtractError("unknown ops table " + n)
+        fsrc = cpp(repo, build, files[n])
+        mm = re.search(r"struct\s+jwt_crypto_ops\s+%s\s*=\s*\{(.*?)\}\s*;" % n, fsrc, re.S)
+        if not mm:
+            raise ExtractError("definition of %s not found" % n)
+        fields = dict(re.findall(r"\.(\w+)\s*=\s*([^,]+?)\s*,", mm.group(1) + ","))
+        for k in ("name", "provider", "process_rsa", "process_ec", "process_eddsa", "process_item_free"):
+            if k not in fields:
+                raise ExtractError("%s lacks .%s" % (n, k))
+        pname = fields["name"].strip().strip('"')
+        if fields["provider"] not in prov:
+            raise ExtractError("%s: unknown provider enumerator %s" % (n, fields["provider"]))
+        tables.append((n, pname, prov[fields["provider"]], [fields[k] for k in ("process_rsa", "process_ec", "process_eddsa", "process_item_free")]))
+    init_idx = names.index(m0.group(1))
+    # how the name is compared / how init falls back
+    sbody = func_body(src, r"\bjwt_set_crypto_ops\s*\(\s*const\s+char\s*\*\s*\w+\s*\)\s*\{")
+    if "jwt_strcmp" not in sbody or "strcasecmp" in sbody or "strncmp" in sbody or "strstr" in sbody:
+        raise ExtractError("jwt_set_crypto_ops no longer compares names with jwt_strcmp only")
+
+    def bl(s_):
+        return "[%s]" % ", ".join(str(b) for b in s_.encode())
+    text = f"""/- GENERATED by tie/extract.py from libjwt/jwt-crypto-ops.c and the providers' ops tables -- do not edit. -/
+namespace Jwt.Generated
+
+/-- `jwt_ops_available[]` (before the terminating NULL) in order: (`.name`, `.provider`) -/
+def providers : List (List UInt8 × Nat) := [{", ".join("(%s, %d) /- %s -/" % (bl(t[1]), t[2], t[1]) for t in tables)}]
+
+/-- index into `providers` of the initial value of `jwt_ops` -/
+def providerInit : Nat := {init_idx}
+
+/-- per provider: the functions its ops table uses to parse RSA / EC / OKP JWKs and to free items -/
+def providerJwkParsers : List (List String) := [{", ".join("[" + ", ".join('"%s"' % f for f in t[3]) + "]" for t in tables)}]
+
+/-- `jwt_crypto_provider_t` enumerators -/
+def providerEnum : List (String × Nat) := [{", ".join('("%s", %d)' % kv for kv in prov.items())}]
+
+end Jwt.Generated
+"""
+    return "OpsTables.lean", text, {"providers": [(t[1], t[2]) for t in tables], "init": init_idx, "parsers": [t[3] for t in tables]}
+
+
+GENERATORS = [gen_base64, gen_alg, gen_common, gen_jwk, gen_ops]
 
 
 def main():
